@@ -211,9 +211,9 @@ impl UnitPropagate {
             // the literal of every unit clause is assigned
             r is Some ==> forall|i: int| 0 <= i < cnf.clauses@.len() ==> (#[trigger] cnf.clauses@[i])@.len() >= 1,
             r matches Some((up, m)) ==> forall|i: int| 0 <= i < cnf.clauses@.len() && (#[trigger] cnf.clauses@[i])@.len() == 1 ==> m.val(cnf.clauses@[i]@[0].lbl) == Some(cnf.clauses@[i]@[0].pol),
-            // for a formula whose clauses have no repeated literal (Cnf::new sorts and dedups): the two-watched-literal scheme is
+            // for a formula whose clauses are in the normal form Cnf::new establishes (norm_lits: proved there): the two-watched-literal scheme is
             // set up and the watch invariant holds for the returned model -- with the two clauses above, lemma_fixpoint applies
-            distinct_lits(cnf.clauses@) ==> (r matches Some((up, m)) ==> up.winv() && up.watch_ok(m)),
+            norm_ok(cnf.clauses@) ==> (r matches Some((up, m)) ==> up.winv() && up.watch_ok(m)),
 //%% @entry
         let ghost cs = cnf.clauses@;
 //%% @loop 1 /^for w__k in 0\.\.cnf\.num_vars\(\)$/
@@ -230,7 +230,7 @@ impl UnitPropagate {
                 forall|k: int| 0 <= k < implied@.len() ==> unit_lit_ok(cs, #[trigger] implied@[k]) && implied@[k].lbl.0 < cnf.num_vars,
                 forall|i: int| 0 <= i < idx__n && (#[trigger] cs[i])@.len() == 1 ==> implied@.contains(cs[i]@[0]),
                 forall|i: int| 0 <= i < idx__n ==> (#[trigger] cs[i])@.len() >= 1,
-                distinct_lits(cs) ==> mk(watch_list_pos, watch_list_neg, cnf).entries_ok() && built_upto(mk(watch_list_pos, watch_list_neg, cnf), idx__n as int),
+                norm_ok(cs) ==> mk(watch_list_pos, watch_list_neg, cnf).entries_ok() && built_upto(mk(watch_list_pos, watch_list_neg, cnf), idx__n as int),
             decreases cs.len() - idx__n,
 //%% @loopbody 2
             proof {
@@ -243,7 +243,7 @@ impl UnitPropagate {
                 forall|k: int| 0 <= k < implied@.len() ==> unit_lit_ok(cs, #[trigger] implied@[k]) && implied@[k].lbl.0 < cnf.num_vars,
                 forall|i: int| 0 <= i < cs.len() && (#[trigger] cs[i])@.len() == 1 ==> implied@.contains(cs[i]@[0]),
                 forall|k: int| 0 <= k < it.index@ ==> cur_state.val((#[trigger] implied@[k]).lbl) == Some(implied@[k].pol),
-                distinct_lits(cs) ==> cur.winv() && cur.watch_ok(cur_state),
+                norm_ok(cs) ==> cur.winv() && cur.watch_ok(cur_state),
 //%% @loopbody 3
             let ghost u1 = cur;
             let ghost m1 = cur_state;
@@ -253,25 +253,26 @@ impl UnitPropagate {
                     implies (r2 is UNSAT ==> unsat(cs)) && (r2 matches UnitPropResult::PartialSAT(m2) ==> implied_by(cs, m2)) by { lemma_step_initial(cs, m, l, r2); }
             }
 //%% @before /let mut implied: Vec<Literal> = Vec::new\(\);/
-        proof { if distinct_lits(cs) { lemma_built_start(mk(watch_list_pos, watch_list_neg, cnf)); } }
+        proof { if norm_ok(cs) { lemma_built_start(mk(watch_list_pos, watch_list_neg, cnf)); } }
 //%% @after /implied\.push\(c\[0\]\);/
-                proof { if distinct_lits(cs) { lemma_built_skip(mk(watch_list_pos, watch_list_neg, cnf), idx as int); } }
+                proof { if norm_ok(cs) { lemma_built_skip(mk(watch_list_pos, watch_list_neg, cnf), idx as int); } }
 //%% @before /^\s*if c\[1\]\.polarity\(\) \{$/
             let ghost u1 = mk(watch_list_pos, watch_list_neg, cnf);
 //%% @loopend 2
             proof {
-                if distinct_lits(cs) {
+                if norm_ok(cs) {
                     let u2 = mk(watch_list_pos, watch_list_neg, cnf);
                     assert(cs[idx as int][1] == c@[1] && cs[idx as int][0] == c@[0]);
+                    assert(c@[0] != c@[1]) by { reveal(norm_ok); assert(norm1(cs[idx as int]@)); assert(cs[idx as int]@[0int] != cs[idx as int]@[0int + 1]); }
                     assert(u2.list(c@[1]) =~= u1.list(c@[1]).push(idx));
                     assert(u2.list(c@[0]) =~= u1.list(c@[0]).push(idx));
                     lemma_built_step(u1, u2, idx);
                 }
             }
 //%% @after /let mut cur_state = PartialModel::new\(cur\.cnf\.num_vars\(\)\);/
-        proof { if distinct_lits(cs) { lemma_built_done(cur); lemma_watch_empty(cur, cur_state); } }
+        proof { if norm_ok(cs) { lemma_built_done(cur); lemma_watch_empty(cur, cur_state); } }
 //%% @after /cur_state = r;/
-                    proof { if distinct_lits(cs) { lemma_watch_step(u1, cur, m1, cur_state); } }
+                    proof { if norm_ok(cs) { lemma_watch_step(u1, cur, m1, cur_state); } }
 //%% end
 
 // R-filter: `clause.iter().filter(|x| P)` is replaced by the vector of the references the filter yields (an indexed loop over the
